@@ -824,7 +824,9 @@ def timeoutAct (cfg : Cfg) (l : Led) (h : Nat) (tx : Tx) (rc : Rcpt) : TOAct :=
       let failBegin := rc.txStatus == 1
       -- since the `fix:` commit "an accepted receipt of an unordered source service leaves the timeout list": for a receipt
       -- `invalid` alone does not end the bookkeeping; the record decides
-      if t.chain == cfg.bxh || i.group.isSome || (invalid && !i.typ.isResponse) || failBegin then .skip
+      -- since the `fix:` commit "the receipt of a one-to-one transaction leaves the timeout list even if it carries a Group":
+      -- only a REQUEST with a Group is left to the transaction manager's group bookkeeping
+      if t.chain == cfg.bxh || (i.group.isSome && !i.typ.isResponse) || (invalid && !i.typ.isResponse) || failBegin then .skip
       else if i.typ.isRequest then
         if i.timeout ≤ 0 ∨ i.timeout.toNat ≥ maxU64 - h then .skip
         else .add (h + i.timeout.toNat) id
